@@ -200,8 +200,8 @@ def transform(wb, spec):
         allh = [h for sh in ("survey", "choices") if sh in wb for h in headers(sh)]
         def colon_ok(h):
             toks = h.split("::")
-            # after the split, the only colon allowed inside a token is the one of a jr: name (pyxform re-joins 'jr' with the next token)
-            return all(":" not in t or t.strip().startswith("jr:") and t.count(":") == 1 for t in toks) and toks[0].strip() not in ("instance", "body", "media", "attribute")
+            # after the split, the only colon allowed inside a token is the one of a jr:/odk:/orx: name (the prefixes every XForm declares are re-joined with the next token)
+            return all(":" not in t or t.strip().startswith(("jr:", "odk:", "orx:")) and t.count(":") == 1 for t in toks) and toks[0].strip() not in ("instance", "body", "media", "attribute")
         ok = all(colon_ok(h) for h in allh) and any("::" in h for h in allh) and not any("::" in h for h in headers("settings"))
         if ok:
             for sh in ("survey", "choices"):
